@@ -124,6 +124,8 @@ def _run_case(case, ctx, rel):
         the string "open" is a call of open() on the (already open) object"""
         if v == "open":
             return ["open"]
+        if v == "nofd":
+            return ["nofd"]
         if isinstance(v, int) and v < 0 and seq:
             m = -v
             if m % 2:
@@ -138,6 +140,8 @@ def _run_case(case, ctx, rel):
     def exp_of(a):
         if isinstance(a, list) and a[0] == "open":
             return "opened"
+        if isinstance(a, list) and a[0] == "nofd":
+            return "nofd"
         if isinstance(a, list):
             return lines[:a[1]] if a[0] == "iter" else lines[a[1]:a[2]]
         return exp(a)
@@ -152,6 +156,10 @@ def _run_case(case, ctx, rel):
         return out_
 
     progs = [[res_i(v) for v in expand(pr)] for pr in case["children"]]
+    if case.get("nofd"):
+        # the children have used up their file descriptors before they touch the file (a worker that holds many files open)
+        progs = [[["nofd"]] + pr for pr in progs]
+        ctx.label("children-out-of-file-descriptors")
     parent_prog = [res_i(v) for v in expand(case["parent_prog"])] if case.get("parent_prog") else None
     if any(len(pr) > 100 for pr in progs):
         ctx.label("long-sequential-programme")
@@ -196,6 +204,8 @@ def _run_case(case, ctx, rel):
     for w, got, e in zip(who, res, expected):
         probe = [x for x in got if isinstance(x, dict)]
         vals = [x for x in got if not isinstance(x, dict)]
+        if any(isinstance(x, str) and x.startswith("EXC:") and ("Too many open files" in x or "Errno 24" in x) for x in vals):
+            raise Inconclusive("a participant without free file descriptors got EMFILE: a resource fault the statement does not cover")
         if vals != e:
             bad = next((j for j, (a, b) in enumerate(zip(vals, e)) if a != b), None)
             ctx.fail("%s/forked-read-wrong-line" % name,
@@ -250,7 +260,7 @@ def strategies(tier):
     prog = st.one_of(rnd_prog, rnd_prog, rnd_prog, seq_prog, seq_prog, long_prog, open_first)
     case = st.fixed_dictionaries({
         "cls": st.sampled_from(["buffered", "buffered", "mmap", "map-dict", "map-index"]),
-        "size": st.sampled_from(["small", "40k", "200k", "200k"]), "relpath": st.sampled_from([False, False, True]),
+        "size": st.sampled_from(["small", "40k", "200k", "200k"]), "relpath": st.sampled_from([False, False, True]), "nofd": st.sampled_from([False, False, False, True]),
         "parent_first": st.booleans(),
         "children": st.lists(prog, min_size=1, max_size=4),
         "parent_prog": st.one_of(st.none(), prog),
